@@ -205,6 +205,11 @@ namespace igris
                 new (&_data[i]) T{};
             }
 
+            for (size_t i = newsize; i < m_size; ++i)
+            {
+                reinterpret_cast<T *>(&_data[i])->~T();
+            }
+
             m_size = newsize;
         }
 
